@@ -36,7 +36,7 @@ fn ref_entry_for(op: &Op) -> RefEntry {
                 None => Foot::default(),
             }
         }
-        o if o.uses_tl() => Foot::from_view(&DodecahedronProjection::verif_thread_memo_view()),
+        o if o.uses_tl() => std::panic::catch_unwind(|| Foot::from_view(&DodecahedronProjection::verif_thread_memo_view())).unwrap_or_default(),
         _ => Foot::default(),
     };
     let (status, outcome) = match &outcome {
@@ -260,6 +260,10 @@ fn files_under(dir: &std::path::Path, out: &mut Vec<String>, depth: u32) {
             }
         }
     }
+}
+
+pub fn files_under_pub(dir: &std::path::Path, out: &mut Vec<String>) {
+    files_under(dir, out, 0);
 }
 
 /// Regular files under the temp directory this process gives the library (sorted).
